@@ -535,6 +535,47 @@ func TestC04(t *testing.T) {
 		})
 		return
 	}
+	if childLayer() == "value-forms" {
+		// a per-type decoder fills a variable of its type (var q Question; q.UnmarshalJSON(doc)); that variable is then used as an item
+		// by value.  What the decoder filled must bear the same inspection, comparison and re-encoding as the pointer to it.
+		jsonSeeds, gobSeeds := c04Seeds()
+		runChild(len(c04Entries), func(i int) ([]keyed, string) {
+			e := c04Entries[i]
+			seeds := jsonSeeds
+			if e.class == "gob" {
+				seeds = gobSeeds
+			}
+			var ds []keyed
+			followed := 0
+			for _, data := range seeds {
+				var v interface{}
+				var err error
+				stage := "decode"
+				pi, ok := ev.Timed(c04Watchdog, func() {
+					if v, err = e.run(data); err != nil {
+						return
+					}
+					rv := reflect.ValueOf(v)
+					if rv.Kind() == reflect.Ptr && !rv.IsNil() && rv.Elem().Kind() == reflect.Struct {
+						if it, isItem := rv.Elem().Interface().(ap.Item); isItem {
+							stage = "follow-up-by-value"
+							followed++
+							c04Follow(it)
+						}
+					}
+				})
+				key := fmt.Sprintf("total %%s %s %s", e.name, stage)
+				switch {
+				case !ok:
+					return append(ds, keyed{fmt.Sprintf(key, "hang"), "no return within the watchdog for input " + clipBytes(data, 200)}), "RESTART after a hang: " + e.name
+				case pi != nil:
+					ds = append(ds, keyed{fmt.Sprintf(key, "panic@"+pi.Frame), pi.Value + " for input " + clipBytes(data, 300)})
+				}
+			}
+			return ds, fmt.Sprintf("%s followed=%d", e.name, followed)
+		})
+		return
+	}
 	if childLayer() == "chains" {
 		hangs, _ := strconv.Atoi(os.Getenv("VERIF_CHILD_RESTARTS")) // hangs seen by earlier child processes of this layer
 		runChild(len(chainCells), func(i int) ([]keyed, string) {
@@ -589,7 +630,7 @@ func TestC04(t *testing.T) {
 		"the seed documents (19 repository mocks, one every-field-set document per type) and of the gob encodings of every-field-set values, at the matching entry points; nesting: arrays/objects/lists/language maps/" +
 		"collections nested 1..200000 deep, chains (every type name x every item-valued term nested 28 deep, ~1800 documents), type pairs (a list of two members for every ordered pair of type names, three document forms) and gob values nested up to 18 deep, in a child process (a stack overflow is fatal) with an allocation bound; structure-aware random: seeds with a random node replaced by " +
 		"another kind, duplicated members, huge numbers, invalid UTF-8, byte flips and rewritten length bytes in gob streams; corpus: saved fuzz inputs; thorough adds a native coverage-guided fuzz campaign. " +
-		"Oracle: no panic, returns within a 10 s watchdog, allocation <= 64 MiB + 4 KiB per input byte (measured layers), and the follow-up battery (IsNil, NotEmpty, predicates, ItemsEqual(v,v), both encoders, fmt, " +
+		"value-forms (child process): every entry point x every valid seed; what a per-type decoder filled is put through the follow-up battery by value as well. Oracle: no panic, returns within a 10 s watchdog, allocation <= 64 MiB + 4 KiB per input byte (measured layers), and the follow-up battery (IsNil, NotEmpty, predicates, ItemsEqual(v,v), both encoders, fmt, " +
 		"DerefItem) on every value returned without error. non-trivial = the input is accepted by the underlying parser (JSON parses / gob decodes) and reaches a loader; distinct by entry point + input bytes")
 	r.Assume("asymptotic cost is not decided (only a coarse absolute allocation bound and a watchdog with several orders of magnitude of margin)")
 
@@ -814,6 +855,30 @@ func TestC04(t *testing.T) {
 		}
 		r.Cells(nPairs, nPairs)
 		r.Exhaustive("type-pairs", true)
+	}
+
+	if r.WantLayer("value-forms", true) && !r.Replaying() {
+		results := runInChildren(t, "value-forms", len(c04Entries), 15*time.Minute)
+		for i, res := range results {
+			cell := "value-form " + c04Entries[i].name
+			r.Case(cell+" "+res.Info, strings.Contains(res.Info, "followed=") && !strings.HasSuffix(res.Info, "followed=0"), "value-forms")
+			if i%7 == 0 {
+				r.Sample(cell, map[string]interface{}{"layer": "value-forms", "entry": c04Entries[i].name, "info": res.Info})
+			}
+			if res.Fatal != "" {
+				what := "fatal"
+				if strings.Contains(res.Fatal, "stack") {
+					what = "stack-overflow"
+				}
+				r.Report("value-forms", cell, "total "+what+" value-form "+c04Entries[i].name, res.Fatal+" | "+cell, cell)
+				continue
+			}
+			for _, d := range res.Diffs {
+				r.Report("value-forms", cell, d.Key, d.Detail+" | "+cell, cell)
+			}
+		}
+		r.Cells(len(c04Entries), len(c04Entries))
+		r.Exhaustive("value-forms", true)
 	}
 
 	if r.WantLayer("chains", true) && !r.Replaying() {
